@@ -5,10 +5,17 @@ package netsim
 // It uses no knowledge of how any particular reader reassembles.
 
 type DirTruth struct {
-	IP   [4]byte
-	Port uint16
-	ISS  uint32
-	Sent []byte
+	IP   [4]byte // the IPv4 address (zero when the connection is carried over IPv6)
+	Addr Addr    // the address of either family
+	// PeerAddr is the address of the other end of the connection
+	PeerAddr Addr
+	V6       bool // the direction was carried over IPv6
+	// ExtKind: the IPv6 extension header in front of TCP (0 hop-by-hop, 60
+	// destination options), -1 = none
+	ExtKind int
+	Port    uint16
+	ISS     uint32
+	Sent    []byte
 	// Expect is Sent up to the first byte that the capture does not contain
 	// (all of Sent when nothing is missing).
 	Expect []byte
@@ -35,7 +42,9 @@ type DirTruth struct {
 }
 
 // Feature names the most specific property of the direction's history that a
-// known finding may be keyed on.
+// known finding may be keyed on. ipv6: the direction was carried over IPv6;
+// ipv6-v4mapped: ... and one of the two addresses of the connection is an
+// IPv4-mapped IPv6 address.
 func (d *DirTruth) Feature() string {
 	switch {
 	case d.FragEqLen:
@@ -46,6 +55,10 @@ func (d *DirTruth) Feature() string {
 		return "fragorder"
 	case d.Wrapped:
 		return "seqwrap"
+	case d.V6 && (d.Addr.V4Mapped() || d.PeerAddr.V4Mapped()):
+		return "ipv6-v4mapped"
+	case d.V6:
+		return "ipv6"
 	}
 	return "plain"
 }
@@ -216,7 +229,12 @@ func ComputeTruth(w *World) *Truth {
 		for s := 0; s < 2; s++ {
 			e := cn.Ends[s]
 			d := &ct.Dirs[s]
-			d.IP, d.Port, d.ISS, d.Sent = e.host.IP, e.Port, e.ISS, e.Data
+			d.Port, d.ISS, d.Sent = e.Port, e.ISS, e.Data
+			d.Addr, d.V6, d.ExtKind = e.Addr(), cn.V6, e.ExtKind()
+			d.PeerAddr = e.peer.Addr()
+			if !cn.V6 {
+				d.IP = e.host.IP
+			}
 			d.Wrapped = uint64(e.ISS)+uint64(len(e.Data))+1 >= 1<<32
 			d.WrapBack = wrapBack[ct.Idx][s]
 			for _, st := range fs {
@@ -250,4 +268,31 @@ func ComputeTruth(w *World) *Truth {
 		}
 	}
 	return tr
+}
+
+// V4Mapped: an IPv6 address of the form ::ffff:a.b.c.d (RFC 4291 2.5.5.2).
+func (a Addr) V4Mapped() bool {
+	if !a.V6 || a.B[10] != 0xff || a.B[11] != 0xff {
+		return false
+	}
+	for _, b := range a.B[:10] {
+		if b != 0 {
+			return false
+		}
+	}
+	return true
+}
+
+// AddrFeature is the feature for findings about the connection as a whole
+// (it is not listed, or listed with other endpoints): ipv6-v4mapped, ipv6 or
+// plain.
+func (c *ConnTruth) AddrFeature() string {
+	d := &c.Dirs[0]
+	switch {
+	case d.V6 && (d.Addr.V4Mapped() || d.PeerAddr.V4Mapped()):
+		return "ipv6-v4mapped"
+	case d.V6:
+		return "ipv6"
+	}
+	return "plain"
 }
